@@ -17,7 +17,7 @@ ID = "C20"
 MANIFEST = {
     "category": "exploration",
     "text": "Complete enumeration of stated sub-domains plus generated-input search. Exhaustive slices: all 368 184 whole hours 1996-01-01..2037-12-31 (quick and thorough), all ~22 M whole minutes and all seconds within +-2 h of each of the 84 DST switches (thorough), each written in one notation chosen as a pure function of (instant, VERIF_SEED) and judged by all five shipped evaluators. Generated: instants that are local midnight / 06:00, near-misses by +-1 s / +-1 h, DST-switch neighbourhoods, x offsets in [-23:59, +23:59] (incl. seconds offsets) x notations (T/space, fractions, Z, +HH:MM(:SS), +HHMM, +HH, basic and week dates), directly and through format_constraint_evaluation('[93x]'); arbitrary / almost-datetime / very long strings and range-edge datetimes must never raise - neither when the evaluators are called directly nor through format_constraint_evaluation('[93x]') - and must be unfulfilled with a message. Oracle: EU summer-time rule in integer arithmetic; 931 fulfilled iff the written offset is zero. A second evaluator, a subclass that overrides evaluate_932 / evaluate_934, is asked for 931 / 933 / 935 on every instant.",
-    "note": "Trusted: the integer EU-DST rule and the formatter in vlib/ref.py (cross-checked against the shipped evaluators on every whole hour), CPython's datetime.fromisoformat as the definition of which notations are parseable at all. The top-level exhaustive flag stays false: only the listed slices are complete. Process configuration by shard (vlib/sut.py; recorded in replay files): plain / parse caches preheated beyond their size / warnings attributed to ahbicht raised as errors / logging fully enabled with every record rendered; one event loop per process or a new one per call; five process time zones; the hash seed is the shard number; namesakes of ahbicht's marshmallow schema classes are registered.",
+    "note": "Trusted: the integer EU-DST rule and the formatter in vlib/ref.py (cross-checked against the shipped evaluators on every whole hour), CPython's datetime.fromisoformat as the definition of which notations are parseable at all. The top-level exhaustive flag stays false: only the listed slices are complete. Process configuration by shard (vlib/sut.py; recorded in replay files): plain / parse caches preheated beyond their size / warnings attributed to ahbicht raised as errors / logging fully enabled with every record rendered; one event loop per process or a new one per call; five process time zones; the hash seed is the shard number; namesakes of ahbicht's marshmallow schema classes are registered. Every registry of evaluators / providers / resolvers that the harness builds (sut.configure) also holds one of each kind that names no EDIFACT format and no format version; these must never be asked.",
     "technique": "exhaustive enumeration of time slices plus property-based testing against an independent integer-arithmetic model of German local time",
 }
 LEVEL = "exploration"
